@@ -3,3 +3,4 @@ model killed at any point of a build (Props/EngineImplCrash.lean over Lemmas/Ref
 import LLBuild.Props.C04
 import LLBuild.Props.C04Engine
 import LLBuild.Props.EngineImplCrash
+import LLBuild.Props.EngineImplAll
